@@ -27,7 +27,8 @@ CTRL = [L.PagedResultControl(True, 1000, b"ck")]
 
 CLIENT_CALLS: t.Dict[str, t.Tuple[t.Callable[[t.Any], t.Any], t.Callable[[int], t.Any]]] = {
     "bind_simple": (lambda c: c.bind_simple("cn=a", "pw"), lambda i: L.BindRequest(i, [], 3, "cn=a", L.SimpleCredential("pw"))),
-    "bind_sasl": (lambda c: c.bind_sasl("M", cred=b"c"), lambda i: L.BindRequest(i, [], 3, "", L.SaslCredential("M", b"c"))),
+    # an empty-but-present SASL token (the first GSSAPI / EXTERNAL step) must arrive as empty, not as absent
+    "bind_sasl": (lambda c: c.bind_sasl("M", cred=b""), lambda i: L.BindRequest(i, [], 3, "", L.SaslCredential("M", b""))),
     "search": (
         lambda c: c.search_request("dc=x", L.SearchScope.ONE_LEVEL, filter=FILT, attributes=["cn"], controls=CTRL),
         lambda i: L.SearchRequest(i, CTRL, "dc=x", L.SearchScope.ONE_LEVEL, L.DereferencingPolicy.NEVER, 0, 0, False, FILT, ["cn"]),
@@ -47,7 +48,7 @@ SERVER_CALLS: t.Dict[str, t.Tuple[t.Callable[[t.Any, int], t.Any], t.Callable[[i
         lambda s, i: s.bind_response(i, None, C.INVALID_CREDENTIALS, diagnostics_message="no"),
         lambda i: L.BindResponse(i, [], _r(C.INVALID_CREDENTIALS, "no"), None),
     ),
-    "bind_sasl": (lambda s, i: s.bind_response(i, b"x", C.SASL_BIND_IN_PROGRESS), lambda i: L.BindResponse(i, [], _r(C.SASL_BIND_IN_PROGRESS), b"x")),
+    "bind_sasl": (lambda s, i: s.bind_response(i, b"", C.SASL_BIND_IN_PROGRESS), lambda i: L.BindResponse(i, [], _r(C.SASL_BIND_IN_PROGRESS), b"")),
     "entry": (lambda s, i: s.search_result_entry(i, "cn=e", PA), lambda i: L.SearchResultEntry(i, [], "cn=e", PA)),
     "ref": (lambda s, i: s.search_result_reference(i, ["ldap://u"]), lambda i: L.SearchResultReference(i, [], ["ldap://u"])),
     "done": (lambda s, i: s.search_result_done(i, controls=CTRL), lambda i: L.SearchResultDone(i, CTRL, _r())),
